@@ -20,10 +20,20 @@ def ws_norm(out):
     """projection: lines with runs of blanks collapsed (insensitive to column widths / padding)"""
     return b"\n".join(re.sub(rb"[ \t]+", b" ", l).strip() for l in out.split(b"\n"))
 
-def cli_diff(ctx, cases, project=None, tag="", inproc=False, keyf=None):
+PIPE_CMDS = ("print", "csv-log", "csv-db", "csv-db-resolved", "reg", "bal", "quantity", "totals", "unresolved", "summary", "element-total")     # each opens each of its files once
+
+def cli_diff(ctx, cases, project=None, tag="", inproc=False, keyf=None, pipe_frac=0.0):
     """runs the cases through the model and the implementation; records a violation for each class of mismatch.
-    Returns the implementation results."""
+    Returns the implementation results.  pipe_frac: that fraction of the real-binary cases gets its log and / or its book through a named pipe
+    (readable, no size, not a regular file, delivered in pieces) - the model sees the same bytes."""
     if not cases: return []
+    if pipe_frac and not inproc:
+        for c in cases:
+            if c.get("fifo") or c.get("sink") is not None or c["cmd"] not in PIPE_CMDS or ctx.rng.random() >= pipe_frac: continue
+            names = [n for n in ("log.yaml", "food.yaml") if isinstance(c.get("files", {}).get(n), (bytes, bytearray))]
+            if not names: continue
+            c["fifo"] = ctx.rng.choice([names, names[:1], names[-1:]]); c["fifo_piece"] = ctx.rng.choice([None, None, 1, 2, 5, 4096])
+            ctx.tally("delivery", "named pipe: " + "+".join(c["fifo"]) + (" in pieces of %d" % c["fifo_piece"] if c["fifo_piece"] else ""))
     mres = run.run_model([run.model_request(c) for c in cases])
     ires = run.run_inproc_cases(ctx.impl, cases) if inproc else run.run_cli_cases(ctx.impl, cases)
     for c, m, i in zip(cases, mres, ires):
@@ -278,6 +288,16 @@ def check_C11(ctx):
                 elif src == 1: c["e_depth"] = N
                 else: c["files"] = dict(f, **{"cfg.ini": {"cfg": {"depth": N}}}); c["f_config"] = "cfg.ini"
                 cases.append(c)
+    # "in particular whenever recipes are cyclic", whatever the limit: a cycle under a huge limit is recognised as a cycle, the recursion does not go
+    # round it until the limit (or the stack: the harness process runs with an 8 MB goroutine stack so that going round shows within a second)
+    for cyc in (b"a:\n  a: 1\n", b"a:\n  b: 1\nb:\n  a: 2\n", b"x:\n  salt: 1\n  y: 1\ny:\n  z: 2\nz:\n  w: 1\nw:\n  y: 1\n"):
+        for src in ("f_depth", "e_depth"):
+            cc = dict(files={"food.yaml": cyc, "log.yaml": b"2021/01/01:\n  a: 1\n  x: 1\n"}, cmd=ctx.rng.choice(["csv-db-resolved", "reg", "totals", "bal"]), **NOCOLOR); cc[src] = 100000000
+            i = run.run_inproc_single(ctx.impl, cc, env_extra={"HR_VERIF_MAXSTACK": str(8 << 20)}, timeout=60)
+            ctx.count(); ctx.tally("cycle_under_huge_limit", i["status"].split(":")[0] + ":" + (i["status"].split(":") + [""])[1])
+            if i["status"] != "fail:maxdepth":
+                ctx.violation("C11:cycle-under-huge-limit:" + cc["cmd"], "%s on a cyclic book with the depth limit 100000000 (%s): %s %s - expected the maximum-depth error" % (cc["cmd"], src, i["status"][:60], i.get("raw_err", "")[:200].replace("\n", " ")),
+                              dict(kind="cli", case=cc, impl=i, stack_limit_bytes=8 << 20))
     expects = [c.pop("_expect_fail", None) for c in cases]
     ires = cli_diff(ctx, cases, project=ws_norm, tag="C11:")
     for c, e, i in zip(cases, expects, ires):
@@ -398,12 +418,17 @@ def check_C04(ctx):
     cases = []
     for f in wf[:ctx.scale(150, 3000)]:
         cases.append(dict(files={"food.yaml": f["data"]}, cmd="csv-db", **NOCOLOR))
-    cli_diff(ctx, cases, tag="C04:")
+    # the same through a named pipe (a third of them), and files that begin with a byte order mark: the parser has no notion of one - it is part of the first line
+    BOM = b"\xef\xbb\xbf"
+    for f in wf[:ctx.scale(60, 1000)]:
+        cases.append(dict(files={"food.yaml": BOM + f["data"]}, cmd="csv-db", **NOCOLOR))
+    cli_diff(ctx, cases, tag="C04:", pipe_frac=0.34)
+    parse_stream_diff(ctx, [BOM + f["data"] for f in wf[:ctx.scale(300, 5000)]] + [BOM, BOM + b"\n", BOM[:2] + b"a:\n  x 1\n"], "C04:byte-order-mark")
     return dict(rule="(1) every string of <= %d tokens over a 12-token alphabet (letters incl. non-ASCII, digit, '.', '-', ':', quote, '#', space, tab, LF, CR) through "
                 "parser.ParseStreamCallback vs the model, exact callback sequence; (2) random abstract files in the shape of Model/Syntax.v rendered with every layout variant: "
                 "the implementation's records must equal the file's records (the right-hand side of theorem parse_render_roundtrip); (3) number lexemes incl. 15-20 digit decimals, "
                 "ties, subnormals, specials, and the whole ParseFloat grammar (signs x decimal / hexadecimal mantissa x exponent, underscores, inf / nan spellings) with near-misses and "
-                "single-character mutations, compared bit for bit; (4) csv database on the binary. Non-trivial = a rendered file with at least one heading and one entry, distinct by bytes" % L,
+                "single-character mutations, compared bit for bit; (4) csv database on the binary, a third of the files delivered through a named pipe in pieces, and files that begin with a byte order mark. Non-trivial = a rendered file with at least one heading and one entry, distinct by bytes" % L,
                 extra=dict(exhaustive=False))
 
 def check_C09(ctx):
@@ -492,6 +517,22 @@ def check_C09(ctx):
         if not i["status"].startswith("fail") or not quoted:
             ctx.violation("C09:first-error:" + c["cmd"], "%s did not fail with an error quoting the first malformed line %r and its number %s: got %s %r" % (c["cmd"], raw, n, i["status"][:40], i.get("raw_err", "")[:200]),
                           dict(kind="cli", case=c, impl=i, expected=want))
+    # ... also when standard output fails as well (a full disk, a closed pipe): the malformed line is still what the error quotes - a failed write of the
+    # part of the report that precedes it must not hide it
+    sinkc = []
+    for c, first in zip(cases, firsts):
+        if "log.yaml" in c["files"] and c["cmd"] in ("reg", "bal", "csv-log", "print", "quantity", "totals", "unresolved") and len(sinkc) < ctx.scale(60, 600):
+            sinkc.append((dict(c, sink=r.choice([0, 0, 1, 7, 40])), first))
+    sres = cli_diff(ctx, [c for c, _ in sinkc], project=ws_norm, tag="C09:cmd-failing-sink:", inproc=True)
+    for (c, first), i in zip(sinkc, sres):
+        mm = re.match(rb'(?:bad syntax on line (\d+), "(.*)"\.|error converting ".*?" to float on line (\d+) "(.*)"\.)$', first, re.S)
+        if not mm: continue
+        n, raw = (int(mm.group(1) or mm.group(3)), mm.group(2) if mm.group(1) else mm.group(4))
+        err = i.get("raw_err", "").encode("utf-8", "surrogateescape")
+        ctx.tally("failing_sink_and_malformed_line", i["status"].split(":")[0] + ":" + (i["status"].split(":") + [""])[1])
+        if not i["status"].startswith("fail") or not (re.search(rb"line %d(?!\d)" % n, err) is not None and raw in err):
+            ctx.violation("C09:first-error-under-failing-sink:" + c["cmd"], "%s with standard output failing after %d bytes did not fail with an error quoting the first malformed line %r and its number %s: got %s %r" % (c["cmd"], c["sink"], raw, n, i["status"][:40], i.get("raw_err", "")[:200]),
+                          dict(kind="cli", case=c, impl=i))
     return dict(rule="abstract files with k >= 0 malformed lines (no blank before the value / value not a number) planted at random positions among blank lines, comments, notes, CRLF; "
                 "lint and lint --silent output must be exactly the planted lines' messages in file order ('No errors found' iff none), every file-reading command must fail with the first "
                 "one (exact message incl. 1-based physical line number); all compared with the model as well. Non-trivial = a file with at least one planted line, distinct by bytes / (command, message)")
